@@ -39,6 +39,53 @@ def rand_term(rng, cls, max_len, max_index):
     return tuple((rand_index(rng, max_index), rng.choice(ACTIONS[cls])) for _ in range(n))
 
 
+def rand_form(rng, cls, term):
+    """container in which a constructor receives its term (only forms the unmodified library accepts):
+    tuple (default), list, the class's string syntax, the bare factor for one-factor terms; for
+    MajoranaOperator also numpy integer arrays and lists of numpy integers (non-empty terms)"""
+    if rng.random() < 0.6:
+        return 'tuple'
+    if cls == 'majorana':
+        if len(term) < 2:
+            # _sort_majorana_term returns a term of length < 2 as it is: only hashable containers work
+            return 'tuple'
+        forms = ['list', 'int64', 'int32F', 'npints']
+        if max(term) < 256:
+            forms.append('uint8')
+        return rng.choice(forms)
+    forms = ['list', 'str']
+    if len(term) == 1:
+        forms += ['single', 'single-list']
+    return rng.choice(forms)
+
+
+def as_container(cls, term, form):
+    import numpy
+    if form in (None, 'tuple'):
+        return term
+    if form == 'list':
+        return list(term)
+    if cls == 'majorana':
+        if form == 'int64':
+            return numpy.array(term, dtype=numpy.int64)
+        if form == 'int32F':
+            return numpy.asfortranarray(numpy.array(term, dtype=numpy.int32))
+        if form == 'uint8':
+            return numpy.array(term, dtype=numpy.uint8)
+        if form == 'npints':
+            return [numpy.int64(i) for i in term]
+        raise AssertionError(form)
+    if form == 'single':
+        return term[0]
+    if form == 'single-list':
+        return list(term[0])
+    if form == 'str':
+        if cls in ('fermion', 'boson'):
+            return ' '.join('%d^' % i if a == 1 else '%d' % i for i, a in term)
+        return ' '.join('%s%d' % (a, i) for i, a in term)
+    raise AssertionError(form)
+
+
 def rand_scalar(rng, for_div=False):
     if for_div:
         base = rng.choice([1, 2, 4, 0.5, 0.25, -1, -2, -0.5, 8])
@@ -70,7 +117,8 @@ def gen_program(rng, cls, nvars, nstmts, max_len, max_index):
     bound = []
     ninit = rng.randint(1, min(3, nvars))
     for x in range(ninit):
-        prog.append(['new', x, rand_term(rng, cls, max_len, max_index), rand_scalar(rng)])
+        t = rand_term(rng, cls, max_len, max_index)
+        prog.append(['new', x, t, rand_scalar(rng), rand_form(rng, cls, t)])
         bound.append(x)
     while len(prog) < nstmts:
         r = rng.random()
@@ -80,7 +128,8 @@ def gen_program(rng, cls, nvars, nstmts, max_len, max_index):
         if r < 0.04:
             st = ['zero', x]
         elif r < 0.10:
-            st = ['new', x, rand_term(rng, cls, max_len, max_index), rand_scalar(rng)]
+            t = rand_term(rng, cls, max_len, max_index)
+            st = ['new', x, t, rand_scalar(rng), rand_form(rng, cls, t)]
         elif r < 0.17:
             st = ['alias', x, y]
         elif r < 0.37:
@@ -133,10 +182,10 @@ ERR = {TypeError: 'TypeError', ZeroDivisionError: 'ZeroDivisionError', ValueErro
        AttributeError: 'AttributeError'}
 
 
-def exec_stmt(C, env, st):
+def exec_stmt(C, env, st, cls=None):
     k = st[0]
     if k == 'new':
-        env[st[1]] = C(st[2], st[3])
+        env[st[1]] = C(as_container(cls, st[2], st[4] if len(st) > 4 else None), st[3])
     elif k == 'zero':
         env[st[1]] = C()
     elif k == 'alias':
@@ -187,7 +236,7 @@ def run_impl(C, cls, nvars, prog):
     outs = []
     for st in prog:
         try:
-            exec_stmt(C, env, st)
+            exec_stmt(C, env, st, cls)
             outs.append([enc_op(cls, env[x].terms) if x in env else None for x in range(nvars)])
         except tuple(ERR) as e:
             outs.append({'error': ERR.get(type(e), type(e).__name__)})
@@ -358,7 +407,7 @@ def run_impl_ids(C, cls, nvars, prog):
     outs, ids = [], []
     for st in prog:
         try:
-            exec_stmt(C, env, st)
+            exec_stmt(C, env, st, cls)
             outs.append([enc_op(cls, env[x].terms) if x in env else None for x in range(nvars)])
         except tuple(ERR) as e:
             outs.append({'error': ERR.get(type(e), type(e).__name__)})
@@ -391,6 +440,11 @@ def check_programs(ctx, stream, cls, progs, nvars, oracle=True):
     for p, mo in zip(progs, model_outs):
         io, ids = run_impl_ids(C, cls, nvars, p)
         case = {'cls': cls, 'nvars': nvars, 'prog': p, 'prog_enc': [enc_stmt(cls, s_) for s_ in p]}
+        if any(s_[0] == 'new' and len(s_) > 4 and s_[4] != 'tuple' for s_ in p):
+            case['forms'] = [s_[4] if s_[0] == 'new' and len(s_) > 4 else None for s_ in p]
+            for s_ in p:
+                if s_[0] == 'new' and len(s_) > 4:
+                    stream.count('term-container:' + s_[4])
         stream.case(case)
         for st in p:
             stream.count('stmt:' + st[0] + (':' + str(st[2]) if st[0] in ('bin', 'sbin', 'iop', 'isop') else ''))
@@ -476,6 +530,14 @@ def dec_stmt(cls, st):
     return list(st)
 
 
+def attach_forms(prog, forms):
+    if forms:
+        for st, f in zip(prog, forms):
+            if f and st[0] == 'new' and len(st) == 4:
+                st.append(f)
+    return prog
+
+
 def replay(ctx, payload):
     """re-run a recorded program: True when it no longer fails"""
     v = payload.get('violation') or (payload.get('correspondence_disagreements') or [None])[0]
@@ -483,7 +545,7 @@ def replay(ctx, payload):
         return None
     inp = v['input']
     cls = inp['cls']
-    prog = [dec_stmt(cls, st) for st in inp['prog_enc']]
+    prog = attach_forms([dec_stmt(cls, st) for st in inp['prog_enc']], inp.get('forms'))
     st = Stream('replay', 'recorded program')
     check_programs(ctx, st, cls, [prog], inp['nvars'])
     for x in st.violations + st.disagreements:
@@ -497,7 +559,7 @@ def shrink(ctx, v):
     if 'prog_enc' not in inp:
         return v
     cls, nvars = inp['cls'], inp['nvars']
-    prog = [dec_stmt(cls, st) for st in inp['prog_enc']]
+    prog = attach_forms([dec_stmt(cls, st) for st in inp['prog_enc']], inp.get('forms'))
 
     def fails(pr):
         st = Stream('shrink', '')
